@@ -61,8 +61,11 @@ SuppliedVar(s, v) == IF CompOf(v) \in Sph THEN SuppliesSph(s[KindOf(v)])
 \* centreNormalize supplied centre x, y, z -> lon/lat: normalised first or not
 \* normCheck       which arrays normalize_cartesian_coordinates tests before deciding
 \*                 that there is nothing to do
+\* recentre        construct_face_centers("cartesian average"): always the normalised mean of
+\*                 the corners, or the stored face_x/y/z again when there are any
 MechIntended == [ nodeFold |-> "after_populate",  centreUnits |-> "converted",
-                  centreNormalize |-> TRUE,       normCheck |-> "per_kind" ]
+                  centreNormalize |-> TRUE,       normCheck |-> "per_kind",
+                  recentre |-> "from_nodes" ]
 \* MechObserved is revised whenever a fix lands in /repo.  History:
 \*   53c923b0  node_lon/node_lat getters populate, then fold        nodeFold        before_populate -> after_populate
 \*   b821f017  supplied centre lon/lat converted with deg2rad       centreUnits     raw_degrees -> converted
@@ -71,13 +74,18 @@ MechIntended == [ nodeFold |-> "after_populate",  centreUnits |-> "converted",
 \* so the code as read now makes the same choices as MechIntended.  MechBeforeFixes is the code
 \* as first read: the check explores it too and requires TLC to find failing states there (the
 \* model can tell the difference), and the revert mutants reproduce it in the real code.
+\* recentre = "reuse_x" is the code as read (round 2): _populate_face_centroids(repopulate=True)
+\* recomputes from the nodes only when no face_x is stored.
 MechObserved == [ nodeFold |-> "after_populate",  centreUnits |-> "converted",
-                  centreNormalize |-> TRUE,       normCheck |-> "per_kind" ]
+                  centreNormalize |-> TRUE,       normCheck |-> "per_kind",
+                  recentre |-> "reuse_x" ]
 MechBeforeFixes == [ nodeFold |-> "before_populate", centreUnits |-> "raw_degrees",
-                     centreNormalize |-> FALSE,      normCheck |-> "node_only" ]
+                     centreNormalize |-> FALSE,      normCheck |-> "node_only",
+                     recentre |-> "reuse_x" ]
 MechSpace == [ nodeFold : {"after_populate", "before_populate"},
                centreUnits : {"converted", "raw_degrees"},
                centreNormalize : BOOLEAN,
+               recentre : {"from_nodes", "reuse_x"},
                normCheck : {"per_kind", "node_only"} ]
 
 (* ---- the store --------------------------------------------------------------- *)
@@ -158,15 +166,39 @@ NormalizeEff(m, st, nm) ==
        IN IF off THEN [st |-> NormAll(st1), norm |-> "no"]
                  ELSE [st |-> st1, norm |-> "yes"]
 
+\* Which position the face-centre variables denote: "src" the direction the source supplied,
+\* "cen" the normalised mean of the corner unit vectors (the same thing when the source supplies
+\* no face centres: then always "cen").  All present face variables denote one position: they are
+\* derived from each other, and construct_face_centers rewrites all five.
+InitFpos(s) == IF s.face = "none" THEN "cen" ELSE "src"
+\* Grid.construct_face_centers("cartesian average") = _populate_face_centroids(repopulate=True)
+RecentreEff(m, st0, fp) ==
+  LET st    == NodeXyzReady(st0)
+      reuse == m.recentre = "reuse_x" /\ Has(st, "face_x")
+      c     == IF reuse THEN (IF DirOk(st["face_x"]) THEN "unit" ELSE "bad")      \* stored x, y, z, normalised
+               ELSE IF DirOk(st["node_x"]) THEN "unit" ELSE "bad"                   \* normalised mean of corners
+      st1   == SetSph(st, "face", IF c = "unit" THEN "deg180" ELSE "bad", IF c = "unit" THEN "deg90" ELSE "bad")
+  IN [st |-> SetCart(st1, "face", c), fpos |-> IF reuse THEN fp ELSE "cen"]
+\* Grid.chunk(): reads every materialised coordinate through its getter, stores it back chunked
+RECURSIVE ReadAll(_, _, _)
+ReadAll(m, st, vs) == IF vs = {} THEN st
+                      ELSE LET v == CHOOSE w \in vs : TRUE
+                           IN ReadAll(m, IF Has(st, v) THEN AccessEff(m, st, v) ELSE st, vs \ {v})
+ChunkEff(m, st) == ReadAll(m, st, Var)
+
 (* ---- what the property allows ------------------------------------------------- *)
 \* tags a present variable may carry: a function of the source and of whether normalisation
 \* ran.  (A supplied non-unit vector may be reported as supplied or already normalised: both
 \* denote the same point; after normalize_cartesian_coordinates only "unit" is left.)
-OkTags(s, v, ran) ==
+\* rec: construct_face_centers has run (the face centres are derived from then on)
+StillSupplied(s, v, rec) == SuppliedVar(s, v) /\ ~(rec /\ KindOf(v) = "face")
+OkTags(s, v, ran, rec) ==
   IF IsLon(v) THEN {"deg180"}
   ELSE IF IsLat(v) THEN {"deg90"}
-  ELSE IF SuppliedVar(s, v) /\ s.xyzlen = "raw" /\ ~ran THEN {"raw", "unit"}
+  ELSE IF StillSupplied(s, v, rec) /\ s.xyzlen = "raw" /\ ~ran THEN {"raw", "unit"}
   ELSE {"unit"}
+\* position the face-centre variables must denote
+OkFpos(s, rec) == IF rec THEN "cen" ELSE InitFpos(s)
 \* the clause of the property a tag outside OkTags breaks
 ClauseOf(s, v, t) ==
   IF IsLon(v) THEN (IF t = "deg360" THEN "LonInRange" ELSE "SamePoint")
